@@ -310,7 +310,9 @@ def run(ctx: Context) -> None:
             ctx.check('R01.2', ok_shape, "the shape is self.grid_shape[<the kind handed to pack_index>]", fi, call,
                       construct=f"shape={norm_text(sh)} ; pack kind={norm_text(pk.args[0])}")
             layers, core = peel_sequence(flow, pk.args[1])
-            ok_layers = all(l[0] == 'conv' or (l[0] == 'map' and dotted(l[1]) == 'int') for l in layers)
+            ok_layers = all(l[0] == 'conv' or (l[0] == 'map' and dotted(l[1]) == 'int')
+                            or (l[0] == 'comp' and isinstance(l[1], ast.Call) and dotted(l[1].func) == 'int' and len(l[1].args) == 1 and norm_text(l[1].args[0]) == norm_text(l[2]))
+                            for l in layers)
             ctx.check('R01.2', core is call and ok_layers, "pack_index receives the unravelled tuple in order (only tuple/map(int))", fi, pk,
                       construct=f"indexes={norm_text(flow.resolve(pk.args[1]))}")
             _no_wrap(ctx, fi, call, ('order',))
